@@ -1,4 +1,5 @@
 import Placement.Lemmas.SchedCons
+import Placement.Lemmas.WfBase
 /-
   Commit structure of the allocation-writing requests (PUT /allocations/{c}, POST /allocations,
   POST /reshaper) with respect to ONE consumer `cu` that exists (internal id `c0`) and for which the
@@ -458,5 +459,41 @@ theorem allocProg_commits (cfg : Config) {cu c0 g : Nat} {op : Op R} (h : carrie
     split
     · exact aNext_cm cs _ (by show mv ≥ 28; omega) (fun _ h => by cases h) (reqOk_of_all hall) (.inr hex)
     · exact aReshapeRps_cm cfg mv (by omega) cs (reqOk_of_all hall) hex _ _
+
+/-- the pool: no request creates, updates or deletes providers; no request may create consumer `cu` -/
+theorem pool_evo_cons (cfg : Config) (ops : List (Op R)) (hops : ∀ op ∈ ops, isProviderOp op = false) (cu : Nat)
+    (hnc : ∀ op ∈ ops, cu ∉ opCreates op) :
+    PoolAll (QEvo (R := R) (fun u => u ≠ cu)) (ops.map (prog cfg)) := by
+  intro p hp
+  obtain ⟨op, hop, rfl⟩ := List.mem_map.mp hp
+  exact prog_evo cfg op (hops op hop) (fun u hu e => hnc op hop (e ▸ hu))
+
+theorem wcons_start {db : DB R} (hU : Uniq db) {cu c0 : Nat} (hex : ∃ r ∈ db.consumers, r.uuid = cu ∧ r.id = c0) :
+    WCons cu c0 db := by
+  obtain ⟨r0, hr0, hu0, hid0⟩ := hex
+  refine ⟨ids_of_uniq hU, hid0 ▸ hU.freshCons r0 hr0, ?_⟩
+  intro r hr
+  constructor
+  · intro hu
+    have : r = r0 := Wf.L.eq_of_key_eq hU.consUuid hr hr0 (hu.trans hu0.symm)
+    rw [this, hid0]
+  · intro hid
+    have : r = r0 := Wf.L.eq_of_key_eq hU.consId hr hr0 (hid.trans hid0.symm)
+    rw [this, hu0]
+
+theorem prefix_of_lt {α : Type} {p1 p2 q1 q2 : List α} {x y : α} (h : p1 ++ x :: q1 = p2 ++ y :: q2)
+    (hl : p1.length < p2.length) : ∃ mid, p2 = p1 ++ x :: mid := by
+  induction p1 generalizing p2 with
+  | nil =>
+    cases p2 with
+    | nil => simp at hl
+    | cons z zs => simp only [List.nil_append, List.cons_append, List.cons.injEq] at h; exact ⟨zs, by rw [h.1]; rfl⟩
+  | cons a as ih =>
+    cases p2 with
+    | nil => simp at hl
+    | cons z zs =>
+      simp only [List.cons_append, List.cons.injEq] at h
+      obtain ⟨mid, hm⟩ := ih h.2 (by simpa using hl)
+      exact ⟨mid, by rw [h.1, hm]; rfl⟩
 
 end Placement.Sched
